@@ -673,6 +673,82 @@ def handle_totals_resetup(c):
             'kind': 'totals re-setup x%d %s' % (len(mats), 'colored' if any(v for v in solves) else 'nocoloring')}
 
 
+# ------------------------------------------------------------------------------------ colouring on a subset of the inputs
+
+def handle_partial_subset(c):
+    """partial colouring declared for only some inputs (wrt='b*', fd with its own step/form) while another input
+    keeps an ordinary fd approximation with different options, in both declaration orders; quadratic compute, so a
+    forward difference with step h is off by exactly h*coefficient and the options that were used show exactly"""
+    B0 = np.array(c['B0'], dtype=float)
+    B1 = np.array(c['B1'], dtype=float)
+    Cz = np.array(c['Cz'], dtype=float)
+    nr, nb = B0.shape
+    nz = Cz.shape[1]
+    hb, hz = 2.0 ** -c['hb'], 2.0 ** -c['hz']
+    fb, fz = c['fb'], c['fz']
+
+    def build(colored):
+        class Comp(om.ExplicitComponent):
+            def setup(self):
+                self.add_input('b0', np.zeros(nb))
+                self.add_input('b1', np.zeros(nb))
+                self.add_input('z', np.zeros(nz))
+                self.add_output('y', np.zeros(nr))
+
+            def setup_partials(self):
+                def other():
+                    self.declare_partials('y', 'z', method='fd', step=hz, form=fz)
+
+                def colored_part():
+                    if colored:
+                        self.declare_coloring(wrt='b*', method='fd', step=hb, form=fb, num_full_jacs=2,
+                                              tol=1e-20, min_improve_pct=0., show_summary=False,
+                                              show_sparsity=False)
+                    else:
+                        self.declare_partials('y', 'b*', method='fd', step=hb, form=fb)
+                if c['order'] == 0:
+                    other()
+                    colored_part()
+                else:
+                    colored_part()
+                    other()
+
+            def compute(self, i, o):
+                o['y'] = B0 @ (i['b0'] ** 2) + B1 @ (i['b1'] ** 2) + Cz @ (i['z'] ** 2)
+        p = om.Problem()
+        p.model.add_subsystem('c', Comp(), promotes=['*'])
+        p.setup()
+        return p
+    pc, pu = build(True), build(False)
+    sg = {'forward': 1.0, 'backward': -1.0, 'central': 0.0}
+    bad = []
+    for k, pt in enumerate(c['points']):
+        js = []
+        for p in (pc, pu):
+            for v in ('b0', 'b1', 'z'):
+                p.set_val(v, np.array(pt[v], dtype=float))
+            p.run_model()
+            js.append(p.compute_totals(of=['y'], wrt=['b0', 'b1', 'z'], return_format='flat_dict'))
+        exact = {('y', 'b0'): B0 * (2 * np.array(pt['b0'], dtype=float) + sg[fb] * hb)[np.newaxis, :],
+                 ('y', 'b1'): B1 * (2 * np.array(pt['b1'], dtype=float) + sg[fb] * hb)[np.newaxis, :],
+                 ('y', 'z'): Cz * (2 * np.array(pt['z'], dtype=float) + sg[fz] * hz)[np.newaxis, :]}
+        for key in exact:
+            if not np.array_equal(np.asarray(js[1][key]), exact[key]):
+                raise ValueError('harness: uncoloured fd %s is %s, expected %s' % (
+                    key, np.asarray(js[1][key]).tolist(), exact[key].tolist()))
+            if not np.array_equal(np.asarray(js[0][key]), np.asarray(js[1][key])):
+                bad.append('point %d: d%s/d%s with declare_coloring(wrt="b*", fd step %g %s) and y/z declared fd '
+                           'step %g %s (order %d) is %s; the same approximations without colouring give %s' % (
+                               k, key[0], key[1], hb, fb, hz, fz, c['order'], np.asarray(js[0][key]).tolist(),
+                               np.asarray(js[1][key]).tolist()))
+                break
+        if bad:
+            break
+    col = pc.model.c._coloring_info.coloring
+    return {'res': '__none__', 'ok': not bad, 'msg': '; '.join(bad)[:1500], 'sig': 'partial-coloring-subset-of-inputs',
+            'kind': 'partial colouring on a subset order %d %s' % (c['order'], 'colored' if col is not None else 'nocoloring')}
+
+
 def handle(c):
     k = c['kind']
     if k == 'pat':
@@ -691,6 +767,8 @@ def handle(c):
         return handle_totals_multi(c)
     if k == 'totals_resetup':
         return handle_totals_resetup(c)
+    if k == 'partial_subset':
+        return handle_partial_subset(c)
     raise ValueError(k)
 
 
